@@ -160,6 +160,7 @@ func TestVerif_C04_Lifecycle(t *testing.T) {
 				hadSel := s.ag.selectedPair() != nil
 				silence := time.Since(lastRecv)
 				s.ag.tick()
+				silenceAfter := time.Since(lastRecv) // the agent read its clock somewhere between the two readings
 				s.ops = append(s.ops, "tick")
 				if closed || !hadSel || (prevState != ConnectionStateConnected && prevState != ConnectionStateDisconnected) {
 					break
@@ -169,7 +170,10 @@ func TestVerif_C04_Lifecycle(t *testing.T) {
 				if total != 0 {
 					total += effDT
 				}
-				near := func(x time.Duration) bool { d := silence - x; return d > -40*time.Millisecond && d < 40*time.Millisecond }
+				// a threshold inside [silence−40 ms, silenceAfter+40 ms] cannot be judged, however slow the machine is
+				near := func(x time.Duration) bool {
+					return x > silence-40*time.Millisecond && x < silenceAfter+40*time.Millisecond
+				}
 				if (effDT != 0 && near(effDT)) || (total != 0 && near(total)) {
 					lbl["threshold-too-close-to-call"] = true
 
